@@ -1913,7 +1913,10 @@ class _Simu(_IObserver, _params.Updatable, ABC):
         if self.isNonLinear:
             # dofsValues = dofsValues - u
             # set incremental dof values
-            dofsValues -= self._Solver_Get_Newton_Raphson_current_solution()[dofs]
+            # a dof entered several times holds the sum of its values: subtract the current value once per dof
+            _, first = np.unique(dofs, return_index=True)
+            u = self._Solver_Get_Newton_Raphson_current_solution()
+            dofsValues[first] -= u[dofs[first]]
 
         if algo == AlgoType.euler_explicit:
             # the solve variable is a^n: constrained DOFs have zero acceleration
